@@ -32,15 +32,15 @@ fn pn(x: u64) -> PacketNumber {
 }
 
 impl<S: ValueToFrameWriter<VarInt>> IncrementalValueSync<VarInt, S> {
-    /// Arbitrary IncrementalValueSync whose latest value is `latest`, satisfying the representation invariant
-    /// `ivs_inv`: acked <= latest, in-flight value <= latest; any threshold; any delivery state.
-    pub(crate) fn verif_any_with_latest(latest: u64) -> Self {
-        let acked: u64 = kani::any();
-        let threshold: u64 = kani::any();
-        let x: u64 = kani::any();
-        let p: u64 = kani::any();
+    /// IncrementalValueSync whose latest value is `latest`, built from caller-supplied nondeterministic values
+    /// `nd = [acked, threshold, x, p]` and `kind`, restricted to the representation invariant `ivs_inv`:
+    /// acked <= latest, in-flight value x <= latest; any threshold; any delivery state.
+    /// The values are drawn by the *calling* harness module (fn any_sync_with_latest there), not here, so that a
+    /// native replay consumes Kani's concrete values in the reported order (each replay module has its own reader).
+    pub(crate) fn verif_build(latest: u64, nd: [u64; 4], kind: u8) -> Self {
+        let [acked, threshold, x, p] = nd;
         kani::assume(latest <= MAXV && acked <= latest && threshold <= MAXV && x <= latest && p <= MAXV);
-        let delivery = match kani::any::<u8>() % 7 {
+        let delivery = match kind % 7 {
             0 => DeliveryState::NotRequested,
             1 => DeliveryState::Requested(v(x)),
             2 => DeliveryState::Lost(v(x)),
@@ -98,7 +98,9 @@ type Sync = IncrementalValueSync<VarInt, W>;
 fn any_sync() -> Sync {
     let latest: u64 = kani::any();
     kani::assume(latest <= MAXV);
-    Sync::verif_any_with_latest(latest)
+    let nd: [u64; 4] = kani::any();
+    let kind: u8 = kani::any();
+    Sync::verif_build(latest, nd, kind)
 }
 
 fn abs(s: &Sync) -> Ivs {
@@ -106,7 +108,7 @@ fn abs(s: &Sync) -> Ivs {
     Ivs { latest: latest as i128, acked: acked as i128, inflight, cancelled }
 }
 
-//@ harness props=C04 tier=quick level=full timeout=200
+//@ harness props=C04 tier=quick level=full timeout=300
 //@ fn IncrementalValueSync::update_latest_value
 //@ fn IncrementalValueSync::latest_value
 #[kani::proof]
@@ -170,7 +172,7 @@ fn vq_c04_ivs_on_transmit() {
     kani::cover!(!wanted, "reach:no_interest");
 }
 
-//@ harness props=C04 tier=quick level=full timeout=200
+//@ harness props=C04 tier=quick level=full timeout=300
 //@ fn IncrementalValueSync::on_packet_ack
 //@ fn IncrementalValueSync::on_packet_loss
 #[kani::proof]
